@@ -636,10 +636,20 @@ func drawWorld(rt *rapid.T) *world {
 	}
 	ns := rapid.IntRange(2, 4).Draw(rt, "nsubs")
 	for i := 0; i < ns; i++ {
-		w.subs = append(w.subs, drawSub(rt, w.subs))
+		s := drawSub(rt, w.subs)
+		dup := false
+		for _, x := range w.subs {
+			dup = dup || x.semKey() == s.semKey()
+		}
+		if !dup {
+			w.subs = append(w.subs, s)
+		}
 	}
 	seen := map[nip]bool{}
 	add := func(a nip, edge bool) {
+		if a.v6 {
+			a = ip6(a.b) // stepping over a subnet edge can enter the IPv4-mapped range
+		}
 		if edge {
 			w.edge[a] = true
 		}
@@ -863,10 +873,10 @@ func checkGater(f failer, what string, g *conngater.BasicConnectionGater, w *wor
 		if stHi != nil {
 			v2 = stHi.state()
 		}
-		v = join(v, v2)
-		if v == either {
+		if v == either || v2 == either {
 			o.ambiguous = true
 		}
+		v = join(v, v2)
 		if v == yes && !gotSubs[k] {
 			f.Fatalf("%s: subnet %s is blocked but ListBlockedSubnets does not list it (listed: %v)", what, k, gotSubs)
 		}
@@ -946,7 +956,7 @@ func checkGater(f failer, what string, g *conngater.BasicConnectionGater, w *wor
 				o.edgeFree = true
 			}
 		default:
-			if !pr.relay {
+			if !pr.relay && (lo.ipVerdict(*pr.ip) == either || hi.ipVerdict(*pr.ip) == either) {
 				o.unspecified = true
 			}
 		}
